@@ -89,7 +89,9 @@ SureNotKeyboard == {"gaming-mouse", "power-button", "video-bus", "cros-ec", "vir
 \* exclude patterns and the names they match (glob semantics over the finite universe of names)
 AllNames == {NameOf(Kinds[i]): i \in KindIds}
 Patterns == <<"*Mouse*", "AT Translated Set 2 keyboard", "*", "totalmapper", "AT*", "*keyboard", "?T Translated Set 2 keyboard", "Nothing*", "*Keys", "Compact?Keys",
-              "SINO WEALTH Gaming KB ", "SINO WEALTH Gaming KB", "*KB?", "* ">>
+              "SINO WEALTH Gaming KB ", "SINO WEALTH Gaming KB", "*KB?", "* ",
+              ""      \* the empty pattern matches exactly the empty name (an entry without an N: line)
+              >>
 MatchSet(p) ==
   CASE p = "*Mouse*" -> {"GXT 4155 Gaming Mouse", "Gaming Mouse Keyboard", "Virtual Mouse", "Razer Mouse"}
     [] p = "AT Translated Set 2 keyboard" -> {"AT Translated Set 2 keyboard"}
@@ -105,5 +107,6 @@ MatchSet(p) ==
     [] p = "SINO WEALTH Gaming KB" -> {}                              \* without the blank it is a different string
     [] p = "*KB?" -> {"SINO WEALTH Gaming KB "}
     [] p = "* " -> {"SINO WEALTH Gaming KB "}
+    [] p = "" -> {""}
 Excluded(name, pats) == \E i \in 1..Len(pats): name \in MatchSet(pats[i])
 =============================================================================
